@@ -4,8 +4,10 @@
   Programs are built from the regenerated decorator stacks plus the transcribed bodies (Model/Faults.lean).
   `fault_contained` : for EVERY verb, every shape (any number of directory entries / data blocks, offset or
   not) and every backend-call index k, the command's last reply is 451, no 2xx reply is ever queued, at most
-  one 1xx mark.  `fault_closes_data_partial` : if the 1xx mark was given, the data connection is closed —
-  except when the failing call is the `open` of a file transfer (negative witness: finding F6).
+  one 1xx mark.  `fault_closes_data` : if the 1xx mark was given, the data connection is closed — for every
+  failing call, the `open` of a file transfer included (finding F6, repaired in /repo a864f95: the workers now
+  enter the stream before the file; the order is read off the source as `Generated.Verb.workerContexts`, and
+  `context_order_matters` shows the same statement is false for the old order).
 -/
 import AioftpModel.Model.Faults
 
@@ -188,14 +190,14 @@ theorem body_split (v : Verb) (sh : Shape) :
   case list =>
     refine ⟨[.reply 150, .takeData, .enterStream] ++
       sh.entries.flatMap (fun _ => [Seg.call .listStep, .call .exists_, .call .stat]) ++
-      [.call .listStep, .exitStream], 226, by simp [body], ?_⟩
+      [.call .listStep, .exitStream], 226, by simp [body, enters, exits, enterCtx, exitCtx, Verb.workerContexts], ?_⟩
     intro seg h
     simp only [List.mem_append, List.mem_flatMap, List.mem_cons, List.mem_singleton, List.not_mem_nil, or_false] at h
     rcases h with ((h | h | h) | ⟨_, _, (h | h | h)⟩) | (h | h) <;> subst h <;> rfl
   case mlsd =>
     refine ⟨[.reply 150, .takeData, .enterStream] ++
       sh.entries.flatMap (fun f => Seg.call .listStep :: mlsxCalls f) ++
-      [.call .listStep, .exitStream], 200, by simp [body], ?_⟩
+      [.call .listStep, .exitStream], 200, by simp [body, enters, exits, enterCtx, exitCtx, Verb.workerContexts], ?_⟩
     intro seg h
     simp only [List.mem_append, List.mem_flatMap, List.mem_cons, List.mem_singleton, List.not_mem_nil, or_false] at h
     rcases h with ((h | h | h) | ⟨f, _, h⟩) | (h | h)
@@ -210,9 +212,9 @@ theorem body_split (v : Verb) (sh : Shape) :
       · simp at h
       · simp at h; subst h; rfl
   case retr =>
-    refine ⟨[.reply 150, .takeData, .call .open_, .enterFile, .enterStream] ++
+    refine ⟨[.reply 150, .takeData, .enterStream, .call .open_, .enterFile] ++
       (if sh.offset then [.call .seek] else []) ++ (List.replicate sh.blocks (Seg.call .read)) ++
-      [.call .read, .exitStream, .call .close, .exitFile], 226, by simp [body], ?_⟩
+      [.call .read, .call .close, .exitFile, .exitStream], 226, by simp [body, enters, exits, enterCtx, exitCtx, Verb.workerContexts], ?_⟩
     intro seg h
     simp only [List.mem_append, List.mem_cons, List.not_mem_nil, or_false, List.mem_replicate] at h
     rcases h with (((h | h | h | h | h) | h) | ⟨_, h⟩) | (h | h | h | h)
@@ -221,9 +223,9 @@ theorem body_split (v : Verb) (sh : Shape) :
     · simp at h; subst h; rfl
     · simp at h
   case stor =>
-    refine ⟨[.call .isDir, .reply 150, .takeData, .call .open_, .enterFile, .enterStream] ++
+    refine ⟨[.call .isDir, .reply 150, .takeData, .enterStream, .call .open_, .enterFile] ++
       (if sh.offset then [.call .seek] else []) ++ (List.replicate sh.blocks (Seg.call .write)) ++
-      [.exitStream, .call .close, .exitFile], 226, by simp [body], ?_⟩
+      [.call .close, .exitFile, .exitStream], 226, by simp [body, enters, exits, enterCtx, exitCtx, Verb.workerContexts], ?_⟩
     intro seg h
     simp only [List.mem_append, List.mem_cons, List.not_mem_nil, or_false, List.mem_replicate] at h
     rcases h with (((h | h | h | h | h | h) | h) | ⟨_, h⟩) | (h | h | h)
@@ -232,9 +234,9 @@ theorem body_split (v : Verb) (sh : Shape) :
     · simp at h; subst h; rfl
     · simp at h
   case appe =>
-    refine ⟨[.call .isDir, .reply 150, .takeData, .call .open_, .enterFile, .enterStream] ++
+    refine ⟨[.call .isDir, .reply 150, .takeData, .enterStream, .call .open_, .enterFile] ++
       (if sh.offset then [.call .seek] else []) ++ (List.replicate sh.blocks (Seg.call .write)) ++
-      [.exitStream, .call .close, .exitFile], 226, by simp [body], ?_⟩
+      [.call .close, .exitFile, .exitStream], 226, by simp [body, enters, exits, enterCtx, exitCtx, Verb.workerContexts], ?_⟩
     intro seg h
     simp only [List.mem_append, List.mem_cons, List.not_mem_nil, or_false, List.mem_replicate] at h
     rcases h with (((h | h | h | h | h | h) | h) | ⟨_, h⟩) | (h | h | h)
@@ -398,11 +400,12 @@ theorem mark_only_transfer (v : Verb) (sh : Shape) (k : Option Nat) (h : 150 ∈
         | (exfalso; revert h; decide)
   · simp at h
 
-/-- the window between "data connection taken out of the session" and "stream context entered": the state
-    after the concrete prefix of each transfer program, and faults inside that prefix -/
-theorem fault_closes_data_partial (v : Verb) (sh : Shape) (k : Nat)
+/-- **fault_closes_data.**  For every verb, shape and backend-call index: if the 1xx mark was given and a
+    backend call failed — ANY call, the `open` of the file included — the data connection the worker took
+    out of the session has been closed.  (The stream item is entered right after the connection is taken,
+    before any backend call, so every later fault unwinds through its exit.) -/
+theorem fault_closes_data (v : Verb) (sh : Shape) (k : Nat)
     (hmark : 150 ∈ (run v sh (some k)).replies)
-    (hopen : (run v sh (some k)).faulted ≠ some .open_)
     (hf : (run v sh (some k)).faulted.isSome = true) :
     (run v sh (some k)).dataClosed = true := by
   have hv := mark_only_transfer v sh (some k) hmark
@@ -410,57 +413,50 @@ theorem fault_closes_data_partial (v : Verb) (sh : Shape) (k : Nat)
   -- split each program as prefix ++ rest; after the prefix the stream context is entered
   rcases hv with rfl | rfl | rfl | rfl | rfl
   · -- RETR
-    have hp : program .retr sh = [.call .exists_, .call .isFile, .reply 150, .takeData, .call .open_,
-        .enterFile, .enterStream] ++ ((if sh.offset then [.call .seek] else []) ++
-        (List.replicate sh.blocks (Seg.call .read)) ++ [.call .read, .exitStream, .call .close, .exitFile, .reply 226]) := by
-      simp [program, body, Verb.guards, guardCalls, callOfCond]
-    simp only [run] at hmark hopen hf ⊢
-    rw [hp, exec_append] at hmark hopen hf ⊢
+    have hp : program .retr sh = [.call .exists_, .call .isFile, .reply 150, .takeData, .enterStream] ++
+        ([.call .open_, .enterFile] ++ (if sh.offset then [.call .seek] else []) ++
+        (List.replicate sh.blocks (Seg.call .read)) ++ [.call .read, .call .close, .exitFile, .exitStream, .reply 226]) := by
+      simp [program, body, Verb.guards, guardCalls, callOfCond, enters, exits, enterCtx, exitCtx, Verb.workerContexts]
+    simp only [run] at hmark hf ⊢
+    rw [hp, exec_append] at hmark hf ⊢
     by_cases h0 : k = 0
     · subst h0; rw [exec_faulted _ _ _ (by decide)] at hmark; exact absurd hmark (by decide)
     by_cases h1 : k = 1
     · subst h1; rw [exec_faulted _ _ _ (by decide)] at hmark; exact absurd hmark (by decide)
-    by_cases h2 : k = 2
-    · subst h2; rw [exec_faulted _ _ _ (by decide)] at hopen; exact absurd rfl hopen
-    have hA : Good (exec (some k) [.call .exists_, .call .isFile, .reply 150, .takeData, .call .open_,
-        .enterFile, .enterStream] {}) := by
-      simp [exec, stepSeg, Good, Safe, h0, h1, h2]
+    have hA : Good (exec (some k) [.call .exists_, .call .isFile, .reply 150, .takeData, .enterStream] {}) := by
+      simp [exec, stepSeg, Good, Safe, h0, h1]
     exact (exec_good _ _ _ hA).1 hf
   · -- STOR
-    have hp : program .stor sh = [.call .isDir, .reply 150, .takeData, .call .open_, .enterFile, .enterStream] ++
-        ((if sh.offset then [.call .seek] else []) ++ (List.replicate sh.blocks (Seg.call .write)) ++
-        [.exitStream, .call .close, .exitFile, .reply 226]) := by
-      simp [program, body, Verb.guards, guardCalls]
-    simp only [run] at hmark hopen hf ⊢
-    rw [hp, exec_append] at hmark hopen hf ⊢
+    have hp : program .stor sh = [.call .isDir, .reply 150, .takeData, .enterStream] ++
+        ([.call .open_, .enterFile] ++ (if sh.offset then [.call .seek] else []) ++
+        (List.replicate sh.blocks (Seg.call .write)) ++ [.call .close, .exitFile, .exitStream, .reply 226]) := by
+      simp [program, body, Verb.guards, guardCalls, enters, exits, enterCtx, exitCtx, Verb.workerContexts]
+    simp only [run] at hmark hf ⊢
+    rw [hp, exec_append] at hmark hf ⊢
     by_cases h0 : k = 0
     · subst h0; rw [exec_faulted _ _ _ (by decide)] at hmark; exact absurd hmark (by decide)
-    by_cases h1 : k = 1
-    · subst h1; rw [exec_faulted _ _ _ (by decide)] at hopen; exact absurd rfl hopen
-    have hA : Good (exec (some k) [.call .isDir, .reply 150, .takeData, .call .open_, .enterFile, .enterStream] {}) := by
-      simp [exec, stepSeg, Good, Safe, h0, h1]
+    have hA : Good (exec (some k) [.call .isDir, .reply 150, .takeData, .enterStream] {}) := by
+      simp [exec, stepSeg, Good, Safe, h0]
     exact (exec_good _ _ _ hA).1 hf
   · -- APPE
-    have hp : program .appe sh = [.call .isDir, .reply 150, .takeData, .call .open_, .enterFile, .enterStream] ++
-        ((if sh.offset then [.call .seek] else []) ++ (List.replicate sh.blocks (Seg.call .write)) ++
-        [.exitStream, .call .close, .exitFile, .reply 226]) := by
-      simp [program, body, Verb.guards, guardCalls]
-    simp only [run] at hmark hopen hf ⊢
-    rw [hp, exec_append] at hmark hopen hf ⊢
+    have hp : program .appe sh = [.call .isDir, .reply 150, .takeData, .enterStream] ++
+        ([.call .open_, .enterFile] ++ (if sh.offset then [.call .seek] else []) ++
+        (List.replicate sh.blocks (Seg.call .write)) ++ [.call .close, .exitFile, .exitStream, .reply 226]) := by
+      simp [program, body, Verb.guards, guardCalls, enters, exits, enterCtx, exitCtx, Verb.workerContexts]
+    simp only [run] at hmark hf ⊢
+    rw [hp, exec_append] at hmark hf ⊢
     by_cases h0 : k = 0
     · subst h0; rw [exec_faulted _ _ _ (by decide)] at hmark; exact absurd hmark (by decide)
-    by_cases h1 : k = 1
-    · subst h1; rw [exec_faulted _ _ _ (by decide)] at hopen; exact absurd rfl hopen
-    have hA : Good (exec (some k) [.call .isDir, .reply 150, .takeData, .call .open_, .enterFile, .enterStream] {}) := by
-      simp [exec, stepSeg, Good, Safe, h0, h1]
+    have hA : Good (exec (some k) [.call .isDir, .reply 150, .takeData, .enterStream] {}) := by
+      simp [exec, stepSeg, Good, Safe, h0]
     exact (exec_good _ _ _ hA).1 hf
   · -- LIST
     have hp : program .list sh = [.call .exists_, .reply 150, .takeData, .enterStream] ++
         (sh.entries.flatMap (fun _ => [Seg.call .listStep, .call .exists_, .call .stat]) ++
         [.call .listStep, .exitStream, .reply 226]) := by
-      simp [program, body, Verb.guards, guardCalls, callOfCond]
-    simp only [run] at hmark hopen hf ⊢
-    rw [hp, exec_append] at hmark hopen hf ⊢
+      simp [program, body, Verb.guards, guardCalls, callOfCond, enters, exits, enterCtx, exitCtx, Verb.workerContexts]
+    simp only [run] at hmark hf ⊢
+    rw [hp, exec_append] at hmark hf ⊢
     by_cases h0 : k = 0
     · subst h0; rw [exec_faulted _ _ _ (by decide)] at hmark; exact absurd hmark (by decide)
     have hA : Good (exec (some k) [.call .exists_, .reply 150, .takeData, .enterStream] {}) := by
@@ -470,22 +466,30 @@ theorem fault_closes_data_partial (v : Verb) (sh : Shape) (k : Nat)
     have hp : program .mlsd sh = [.call .exists_, .reply 150, .takeData, .enterStream] ++
         (sh.entries.flatMap (fun f => Seg.call .listStep :: mlsxCalls f) ++
         [.call .listStep, .exitStream, .reply 200]) := by
-      simp [program, body, Verb.guards, guardCalls, callOfCond]
-    simp only [run] at hmark hopen hf ⊢
-    rw [hp, exec_append] at hmark hopen hf ⊢
+      simp [program, body, Verb.guards, guardCalls, callOfCond, enters, exits, enterCtx, exitCtx, Verb.workerContexts]
+    simp only [run] at hmark hf ⊢
+    rw [hp, exec_append] at hmark hf ⊢
     by_cases h0 : k = 0
     · subst h0; rw [exec_faulted _ _ _ (by decide)] at hmark; exact absurd hmark (by decide)
     have hA : Good (exec (some k) [.call .exists_, .reply 150, .takeData, .enterStream] {}) := by
       simp [exec, stepSeg, Good, Safe, h0]
     exact (exec_good _ _ _ hA).1 hf
 
-/-- **negative witness (finding F6).**  A failing `open` in RETR / STOR: the mark was sent, the reply is 451,
-    and the data connection the worker had taken out of the session is NOT closed. -/
-theorem fault_in_open_leaves_data_open :
+/-- a failing `open` in RETR / STOR on the current tree: mark, 451, data connection closed -/
+theorem fault_in_open_closes_data :
     let r := run .retr {} (some 2)
     let s := run .stor {} (some 1)
-    r.replies = [150, 451] ∧ r.faulted = some .open_ ∧ r.ownsData = true ∧ r.dataClosed = false ∧
-    s.replies = [150, 451] ∧ s.faulted = some .open_ ∧ s.ownsData = true ∧ s.dataClosed = false := by
+    r.replies = [150, 451] ∧ r.faulted = some .open_ ∧ r.ownsData = true ∧ r.dataClosed = true ∧
+    s.replies = [150, 451] ∧ s.faulted = some .open_ ∧ s.ownsData = true ∧ s.dataClosed = true := by
+  decide
+
+/-- **context_order_matters** (what finding F6 was): the same worker with the items the other way round —
+    file entered first — leaves the data connection open when `open` fails. -/
+theorem context_order_matters :
+    let oldRetr : List Seg := [.call .exists_, .call .isFile, .reply 150, .takeData] ++
+      ([Ctx.file, Ctx.stream].flatMap enterCtx) ++ [.call .read] ++ ([Ctx.stream, Ctx.file].flatMap exitCtx) ++ [.reply 226]
+    let r := exec (some 2) oldRetr {}
+    r.replies = [150, 451] ∧ r.faulted = some .open_ ∧ r.ownsData = true ∧ r.dataClosed = false := by
   decide
 
 /-- a fault in a guard (before the mark) is answered 451 with no mark; a parked data connection is not touched -/
